@@ -6,20 +6,26 @@ package transformations
 import (
 	"strings"
 	"unicode"
+	"unicode/utf8"
 )
 
 // removeWhitespace removes all whitespace characters from input.
 func removeWhitespace(data string) (string, bool, error) {
-	changed := false
-	transformedData := strings.Map(func(r rune) rune {
-		if unicode.IsSpace(r) {
-			// if the character is a space, drop it
-			changed = true
-			return -1
+	i := strings.IndexFunc(data, unicode.IsSpace)
+	if i < 0 {
+		return data, false, nil
+	}
+	// Bytes which are not valid UTF-8 are kept as they are, strings.Map would
+	// replace each of them with U+FFFD.
+	var sb strings.Builder
+	sb.Grow(len(data))
+	sb.WriteString(data[:i])
+	for i < len(data) {
+		r, w := utf8.DecodeRuneInString(data[i:])
+		if !unicode.IsSpace(r) {
+			sb.WriteString(data[i : i+w])
 		}
-		// else keep it in the string
-		return r
-	}, data)
-
-	return transformedData, changed, nil
+		i += w
+	}
+	return sb.String(), true, nil
 }
